@@ -114,8 +114,8 @@ Short == {d \in Dirs \ void : delivered[d] # sent[d]}
 TrDrain ==
   /\ Is("Drain") /\ l' = l + 1
   /\ IF ended = "none" /\ attached /\ ~stale /\ Short # {}
-     THEN Add("Complete", (IF Ev.ok THEN "miscounted" ELSE Ev.why) \o ":" \o
-                          (IF "s2t" \in Short THEN "s2t" ELSE "") \o (IF "t2s" \in Short THEN "t2s" ELSE "") \o ":" \o Ctx)
+     THEN Add("Complete", Ctx \o ":" \o (IF Ev.ok THEN "miscounted" ELSE Ev.why) \o ":" \o
+                          (IF Short = Dirs THEN "both" ELSE IF "s2t" \in Short THEN "s2t" ELSE "t2s"))
      ELSE viol' = viol
   /\ UNCHANGED <<cfg, sent, delivered, attached, ended, ender, tail, stale, void>>
 
@@ -145,7 +145,7 @@ TrCounters == /\ Is("Counters") /\ l' = l + 1
 
 \* clause (b) is settled at the end of the trace (the driver has waited for the tunnel to go away)
 TailViol == IF tail /\ attached /\ OutOf(ender) \notin void /\ delivered[OutOf(ender)] # sent[OutOf(ender)]
-            THEN {V("Complete", "graceful-tail-cut:" \o OutOf(ender) \o ":" \o Ctx)} ELSE {}
+            THEN {V("Complete", Ctx \o ":graceful-tail-cut:" \o OutOf(ender))} ELSE {}
 
 TrEnd == /\ Is("End")
          /\ PrintT("VERDICT " \o ToJson([tr |-> Ev.tr, viol |-> SetToSeq(viol \cup TailViol)]))
